@@ -188,7 +188,7 @@ func (w *raceWorld) crosstalk() []string {
 	return bad
 }
 
-func newRaceWorld() (*raceWorld, error) {
+func newRaceWorld(noRoot bool) (*raceWorld, error) {
 	be := &Backend{}
 	w := &raceWorld{st: newStore(be, false), sess: &jarRW{jars: map[string]jar{}}, cook: &jarRW{jars: map[string]jar{}}, mail: &mailOut{}}
 	ab := authboss.New()
@@ -210,6 +210,9 @@ func newRaceWorld() (*raceWorld, error) {
 	ab.Config.Modules.RecoverLoginAfterRecovery = false
 	ab.Config.Paths.Mount = "/auth"
 	ab.Config.Paths.RootURL = rootURL
+	if noRoot {
+		ab.Config.Paths.RootURL = "" // every other run: links and the OAuth2 callback address are relative
+	}
 	ab.Config.Mail.From = "noreply@site.test"
 	// a provider whose answer depends only on the authorisation code the client presents
 	w.tok = httptest.NewServer(http.HandlerFunc(func(rw http.ResponseWriter, r *http.Request) {
@@ -295,7 +298,9 @@ func (w *raceWorld) do(b, method, path string, form url.Values) (int, string, st
 	} else if form != nil {
 		path += "?" + form.Encode()
 	}
-	r := httptest.NewRequest(method, "http://site.test"+path, body)
+	// every browser reaches the site under its own host name (virtual hosts / a wildcard domain): nothing a request
+	// derives from its own host may show up in another client's responses
+	r := httptest.NewRequest(method, "http://"+b+".site.test"+path, body)
 	if method != "GET" {
 		r.Header.Set("Content-Type", "application/x-www-form-urlencoded")
 	}
@@ -395,6 +400,7 @@ func clientScript(w *raceWorld, i int, heavy bool) []string {
 	note("login-old", c, l, p)
 	c, l, p = w.do(b, "POST", "/auth/login", url.Values{"email": {email}, "password": {np}})
 	note("login-new", c, l, p)
+	tr = append(tr, oauthPart(w, i, b+"o")...)
 	if !heavy { // recovery codes are bcrypted at the default cost (seconds under the race detector): one client of every twelfth run does the 2FA and OAuth2 part
 		if u, _ := w.st.Load(context.Background(), email); u != nil {
 			usr := unwrapUser(u)
@@ -422,24 +428,33 @@ func clientScript(w *raceWorld, i int, heavy bool) []string {
 	note("totp-validate-rc", c, l, p)
 	c, l, p = w.do(b, "POST", "/auth/2fa/totp/validate", url.Values{"recovery_code": {rc}})
 	note("totp-validate-rc-again", c, l, p)
-	// OAuth2 in a second browser of the same client
-	b2 := b + "o"
-	c, l, _ = w.do(b2, "GET", "/auth/oauth2/google", nil)
-	note2 := func(step string, code int, loc string) {
-		if strings.HasPrefix(loc, "http://provider.test/auth") {
-			loc = "provider"
-		}
-		tr = append(tr, fmt.Sprintf("%s:%d:%s:uid=%s", step, code, loc, w.sess.get(b2)["uid"]))
-	}
-	note2("oauth2-start", c, l)
-	c, l, _ = w.do(b2, "GET", "/auth/oauth2/callback/google", url.Values{"state": {w.sess.get(b2)["oauth2_state"]}, "code": {fmt.Sprintf("o%d", i)}})
-	note2("oauth2-callback", c, l)
 	u, _ := w.st.Load(context.Background(), email)
 	if u != nil {
 		usr := unwrapUser(u)
 		tr = append(tr, fmt.Sprintf("final:confirmed=%v:attempts=%d:otps=%d:totp=%v:rcs=%d", usr.Confirmed, usr.AttemptCount,
 			len(splitNonEmpty(usr.OTPs)), usr.TOTPSecretKey != "", len(splitNonEmpty(usr.RecoveryCodes))))
 	}
+	return tr
+}
+
+// oauthPart: an OAuth2 login in a second browser of the same client; the provider redirect is recorded with the
+// redirect_uri the library put into it (built from the configuration - or, with an empty RootURL, relative)
+func oauthPart(w *raceWorld, i int, b2 string) []string {
+	var tr []string
+	note2 := func(step string, code int, loc string) {
+		if strings.HasPrefix(loc, "http://provider.test/auth") {
+			ru := ""
+			if u, err := url.Parse(loc); err == nil {
+				ru = u.Query().Get("redirect_uri")
+			}
+			loc = "provider redirect_uri=" + strings.ReplaceAll(ru, b2+".", "self.")
+		}
+		tr = append(tr, fmt.Sprintf("%s:%d:%s:uid=%s", step, code, loc, w.sess.get(b2)["uid"]))
+	}
+	c, l, _ := w.do(b2, "GET", "/auth/oauth2/google", nil)
+	note2("oauth2-start", c, l)
+	c, l, _ = w.do(b2, "GET", "/auth/oauth2/callback/google", url.Values{"state": {w.sess.get(b2)["oauth2_state"]}, "code": {fmt.Sprintf("o%d", i)}})
+	note2("oauth2-callback", c, l)
 	return tr
 }
 
@@ -468,13 +483,13 @@ func init() {
 				// solo transcripts: each client alone in a fresh world
 				solo := make([][]string, *clients)
 				for i := 0; i < *clients; i++ {
-					w, err := newRaceWorld()
+					w, err := newRaceWorld(run%2 == 1)
 					if err != nil {
 						return err
 					}
 					solo[i] = clientScript(w, i, i == 0 && run%12 == 0)
 				}
-				w, err := newRaceWorld()
+				w, err := newRaceWorld(run%2 == 1)
 				if err != nil {
 					return err
 				}
